@@ -17,12 +17,59 @@ def t_at(sq, i):
     return TIME.dt.nanoseconds(sq[i if isinstance(i, (int, z3.ExprRef)) else num(i)])
 
 
-def seq_sorted(sq):
+def seq_sorted_def(sq, step_hint=False):
     """non-decreasing (pairwise form; as an assumption it is instantiated on the index terms in
     play - the index of the latest entry is registered as one - as a goal it is skolemised)"""
     _index_hint(z3.Length(sq) - 1)
-    return forall(Int, lambda i: forall(Int, lambda j: mk_bool(z3.Implies(
-        z3.And(0 <= num(i), num(i) <= num(j), num(j) < z3.Length(sq)), t_at(sq, num(i)) <= t_at(sq, num(j)))), "j"), "i")
+
+    def inner(i, j):
+        if step_hint:
+            _succ_hint(i)
+            _succ_hint(j)
+        return mk_bool(z3.Implies(z3.And(0 <= num(i), num(i) <= num(j), num(j) < z3.Length(sq)),
+                                  t_at(sq, num(i)) <= t_at(sq, num(j))))
+    return forall(Int, lambda i: forall(Int, lambda j: inner(i, j), "j"), "i")
+
+
+def seq_all_le(sq, x_ns):
+    return forall(Int, lambda i: mk_bool(z3.Implies(z3.And(num(i) >= 0, num(i) < z3.Length(sq)),
+                                                     t_at(sq, num(i)) <= x_ns)), "i")
+
+
+def seq_sorted(sq):
+    """sortedness; on a term that is syntactically an append  A ++ [x]  it is stated in the unfolded form
+    sorted(A) and every entry of A <= x, which spares z3's sequence solver the index arithmetic on the
+    concatenation (seconds, erratically).  Lemma `sorted-append-unfolding` proves both directions of that
+    unfolding for arbitrary A, x."""
+    sq = z3.simplify(sq)
+    if z3.is_app(sq) and sq.decl().kind() == z3.Z3_OP_SEQ_CONCAT and sq.num_args() >= 2:
+        last = sq.arg(sq.num_args() - 1)
+        if z3.is_app(last) and last.decl().kind() == z3.Z3_OP_SEQ_UNIT:
+            rest = [sq.arg(k) for k in range(sq.num_args() - 1)]
+            a = rest[0] if len(rest) == 1 else z3.Concat(*rest)
+            return seq_sorted(a) & seq_all_le(a, TIME.dt.nanoseconds(last.arg(0)))
+    return seq_sorted_def(sq)
+
+
+def _sorted_append_lemma():
+    a = fresh(LOG, "A").term
+    x = TIME.unwrap(fresh(TIME, "x"))
+    b = z3.Concat(a, z3.Unit(x))
+    xn = TIME.dt.nanoseconds(x)
+    # (=>)  sorted(A) and all(A) <= x  ==>  sorted(A ++ [x])          (definition on the concatenation)
+    assume(seq_sorted_def(a))
+    assume(seq_all_le(a, xn))
+    oblige("unfolded-implies-sorted", seq_sorted_def(b))
+
+
+def _sorted_append_lemma_rev():
+    a = fresh(LOG, "A").term
+    x = TIME.unwrap(fresh(TIME, "x"))
+    b = z3.Concat(a, z3.Unit(x))
+    _index_hint(z3.Length(a))
+    assume(seq_sorted_def(b))
+    oblige("sorted-implies-prefix-sorted", seq_sorted_def(a))
+    oblige("sorted-implies-all-le-last", seq_all_le(a, TIME.dt.nanoseconds(x)))
 
 
 def _index_hint(t):
@@ -43,16 +90,44 @@ def sw_wn(o):
 
 # SlidingWindowPolicy._prune: while self._request_log and self._request_log[0] < cutoff: pop(0)
 loop(F_POL, "SlidingWindowPolicy._prune", 1, modifies=[("SlidingWindowPolicy", "_request_log")], inv=[
-    ("kept-part-is-a-suffix", lambda L: mk_bool(z3.SuffixOf(L.self._request_log.term, L.old(L.self)._request_log.term))),
+    ("never-grows", lambda L: mk_bool(z3.Length(L.self._request_log.term) <= z3.Length(L.old(L.self)._request_log.term))),
+    ("kept-part-is-a-suffix", lambda L: seq_is_suffix(L.self._request_log.term, L.old(L.self)._request_log.term)),
     ("dropped-entries-are-older-than-the-window", lambda L: forall(Int, lambda i: mk_bool(z3.Implies(
         z3.And(num(i) >= 0, num(i) < z3.Length(L.old(L.self)._request_log.term) - z3.Length(L.self._request_log.term)),
         t_at(L.old(L.self)._request_log.term, num(i)) < num(ns(L.cutoff)))), "i")),
-    ("still-sorted", lambda L: seq_sorted(L.self._request_log.term)),
-    ("never-grows", lambda L: mk_bool(z3.Length(L.self._request_log.term) <= z3.Length(L.old(L.self)._request_log.term))),
-    ("nothing-dropped-means-unchanged", lambda L: mk_bool(z3.Implies(
-        z3.Length(L.self._request_log.term) == z3.Length(L.old(L.self)._request_log.term),
-        L.self._request_log.term == L.old(L.self)._request_log.term))),
+    ("still-sorted", lambda L: seq_sorted_def(L.self._request_log.term, step_hint=True)),
 ])
+
+
+def seq_is_suffix(new, old):
+    """pointwise definition of `new is a suffix of old` (z3's SuffixOf makes its sequence solver erratic):
+    new[i] == old[i + (|old| - |new|)] for every position of new"""
+    k = z3.Length(old) - z3.Length(new)
+    _index_hint(z3.Length(new) - 1)
+    _index_hint(z3.IntVal(0))
+
+    def body(i):
+        _succ_hint(i)
+        return mk_bool(z3.Implies(z3.And(num(i) >= 0, num(i) < z3.Length(new)), new[num(i)] == old[num(i) + k]))
+    return mk_bool(k >= 0) & forall(Int, body, "i")
+
+
+def _succ_hint(i):
+    """a loop step that pops the head shifts every index by one: register sk+1 next to a skolem index sk"""
+    if str(num(i)).startswith("sk_"):
+        _index_hint(num(i) + 1)
+
+# ---------------------------------------------------------------------------- ghost state of the entities
+# g_accepted : every request that was not dropped, in arrival order
+# g_forwarded: the requests forwarded downstream, in forwarding order
+# g_polls    : poll events scheduled and not yet delivered
+for _rel, _K, _req in (("happysimulator/components/rate_limiter/rate_limited_entity.py", "RateLimitedEntity", "_handle_request"),
+                       ("happysimulator/components/rate_limiter/inductor.py", "Inductor", "_handle_arrival")):
+    ghost(_rel, f"{_K}.{_req}", "return self._forward(event, now)", "self.g_accepted.append(event)", where="before")
+    ghost(_rel, f"{_K}.{_req}", "self._queued += 1", "self.g_accepted.append(event)")
+    ghost(_rel, f"{_K}._forward", "self._forwarded += 1", "self.g_forwarded.append(event)")
+    ghost(_rel, f"{_K}._ensure_poll_scheduled", "self._poll_scheduled = True", "self.g_polls += 1")
+    ghost(_rel, f"{_K}._handle_poll", "self._poll_scheduled = False", "self.g_polls -= 1")
 
 from specs.common import *  # noqa: E402,F401
 
@@ -373,9 +448,9 @@ ctor(SlidingWindowPolicy, args={"window_size_seconds": Real, "max_requests": Int
      requires=[lambda s: (s.window_size_seconds > 0) & (s.max_requests >= 1)],
      ensures=[("empty-log", lambda s: slen(s.self._request_log) == 0)])
 
-# what is dropped (kept apart from the contract the callers use: z3's sequence solver is slow on SuffixOf)
+# what is dropped (kept apart from the contract the callers use, which needs none of it)
 fn(SlidingWindowPolicy, "_prune", label="only-expired-entries-dropped", args={"now": TIME}, ensures=[
-    ("kept-part-is-a-suffix", lambda s: mk_bool(z3.SuffixOf(s.self._request_log.term, s.old(s.self)._request_log.term))),
+    ("kept-part-is-a-suffix", lambda s: seq_is_suffix(s.self._request_log.term, s.old(s.self)._request_log.term)),
     ("dropped-entries-are-older-than-the-window", lambda s: forall(Int, lambda i: mk_bool(z3.Implies(
         z3.And(num(i) >= 0, num(i) < z3.Length(s.old(s.self)._request_log.term) - z3.Length(s.self._request_log.term)),
         t_at(s.old(s.self)._request_log.term, num(i)) < num(ns(s.now)) - num(sw_wn(s.self)))), "i")),
@@ -394,15 +469,23 @@ fn(SlidingWindowPolicy, "_prune", args={"now": TIME}, modifies=["_request_log"],
         slen(s.self._request_log) == slen(s.old(s.self)._request_log),
         mk_bool(z3.Or(z3.Length(s.old(s.self)._request_log.term) == 0,
                       t_at(s.old(s.self)._request_log.term, 0) >= num(ns(s.now)) - num(sw_wn(s.self)))))),
-    ("nothing-dropped-means-unchanged", lambda s: implies(
-        slen(s.self._request_log) == slen(s.old(s.self)._request_log), unchanged(s, s.self))),
+    ("nothing-dropped-means-same-oldest-entry", lambda s: mk_bool(z3.Implies(
+        z3.And(z3.Length(s.self._request_log.term) == z3.Length(s.old(s.self)._request_log.term),
+               z3.Length(s.self._request_log.term) > 0),
+        t_at(s.self._request_log.term, 0) == t_at(s.old(s.self)._request_log.term, 0)))),
     ("oldest-kept-entry-is-inside-the-window", lambda s: mk_bool(z3.Or(
         z3.Length(s.self._request_log.term) == 0,
         t_at(s.self._request_log.term, 0) >= num(ns(s.now)) - num(sw_wn(s.self))))),
 ])
 
-fn(SlidingWindowPolicy, "try_acquire", args={"now": TIME}, requires=[log_monotone],
+lemma("sorted-append-unfolding(=>)", _sorted_append_lemma)
+lemma("sorted-append-unfolding(<=)", _sorted_append_lemma_rev)
+
+fn(SlidingWindowPolicy, "try_acquire", args={"now": TIME}, requires=[log_monotone], modifies=["_request_log"], returns=Bool,
    uses=[(SlidingWindowPolicy, "_prune")], ensures=[
+    ("frame", lambda s: unchanged(s, s.self, "_window_size", "_max_requests")),
+    ("still-sorted", lambda s: seq_sorted(s.self._request_log.term)),
+    ("never-more-than-N-logged", lambda s: slen(s.self._request_log) <= s.self._max_requests),
     ("admits-iff-fewer-than-N-admissions-inside-the-window", lambda s: iff(s.result, sw_admits(s.old(s.self), ns(s.now)))),
     ("admitted-instant-is-logged-last", lambda s: implies(s.result, mk_bool(z3.And(
         z3.Length(s.self._request_log.term) >= 1,
@@ -431,7 +514,7 @@ fn(SlidingWindowPolicy, "time_until_available", args={"now": TIME}, requires=[lo
 drain_task(SlidingWindowPolicy, lambda p, now: mk_bool(z3.Or(
     z3.Length(p._request_log.term) == 0,
     t_at(p._request_log.term, z3.Length(p._request_log.term) - 1) <= num(ns(now)))),
-    uses=[(SlidingWindowPolicy, "_prune")])
+    uses=[(SlidingWindowPolicy, "_prune"), (SlidingWindowPolicy, "try_acquire")])
 
 # ============================================================================ A4. fixed window
 # Aligned windows at clock resolution: Wn = window length in whole nanoseconds (the truncation every
@@ -521,3 +604,220 @@ def _fixed_window_lemma():
 
 
 lemma("fixed-window-2N-in-any-window-length-interval", _fixed_window_lemma)
+
+# ============================================================================ B. rate limited entities
+from happysimulator.components.rate_limiter.policy import RateLimiterPolicy  # noqa: E402
+from happysimulator.components.rate_limiter.rate_limited_entity import RateLimitedEntity  # noqa: E402
+from happysimulator.components.rate_limiter.null import NullRateLimiter  # noqa: E402
+from happysimulator.components.rate_limiter.inductor import Inductor  # noqa: E402
+from happysimulator.components.queue_policy import FIFOQueue  # noqa: E402
+
+EV = Ref(Event)
+EVSEQ = Seq(EV)
+
+# the FIFO buffer (its own contracts are part of C08; here it runs inlined)
+cls(FIFOQueue, fields={"_capacity": IntInf, "_queue": EVSEQ}, const=["_capacity"],
+    inv=[("capacity-shape", lambda o: True if isinstance(o._capacity, float) else o._capacity >= 0),
+         ("never-above-capacity", lambda o: True if isinstance(o._capacity, float) else slen(o._queue) <= o._capacity)])
+
+# the policy interface as the entity sees it: each of the five policies above proves `wait-nonnegative`
+cls(RateLimiterPolicy)
+stub_of(RateLimiterPolicy, "try_acquire", returns=Bool, modifies=[])
+stub_of(RateLimiterPolicy, "time_until_available", returns=DURATION, modifies=[], ensures=[lambda s: ns(s.result) >= 0])
+POLICY_IFACE = [(RateLimiterPolicy, "try_acquire"), (RateLimiterPolicy, "time_until_available")]
+
+
+def qseq(o):
+    """the buffered requests, oldest first (raw sequence term)"""
+    return o._queue._queue.term
+
+
+def _entity_inv(poll_prefix):
+    return [
+        ("counters-nonneg", lambda o: (o._received >= 0) & (o._forwarded >= 0) & (o._queued >= 0) & (o._dropped >= 0)),
+        # statement: every request is forwarded, queued or dropped exactly once
+        ("every-request-forwarded-queued-or-dropped-exactly-once", lambda o:
+            o._received == o._forwarded + slen(o._queue._queue) + o._dropped),
+        ("ever-queued-accounting", lambda o: o._queued >= slen(o._queue._queue)),
+        ("time-series-match-counters", lambda o: (slen(o.received_times) == o._received)
+            & (slen(o.forwarded_times) == o._forwarded) & (slen(o.dropped_times) == o._dropped)),
+        # statement: requests are forwarded in arrival order -
+        # (already forwarded) ++ (still buffered) is exactly the sequence of accepted arrivals
+        ("forwards-in-arrival-order", lambda o: mk_bool(
+            o.g_accepted.term == z3.Concat(o.g_forwarded.term, qseq(o)))),
+        ("at-most-one-poll-outstanding", lambda o: o.g_polls == ite(o._poll_scheduled, 1, 0)),
+        # the drain never stalls: while requests are buffered a poll is outstanding
+        ("buffered-requests-have-a-poll-outstanding", lambda o: implies(slen(o._queue._queue) > 0, o._poll_scheduled)),
+    ]
+
+
+ENTITY_GHOST = {"g_accepted": EVSEQ, "g_forwarded": EVSEQ, "g_polls": Int}
+cls(RateLimitedEntity, fields={"_downstream": Ref(Entity), "_policy": Ref(RateLimiterPolicy), "_queue": Ref(FIFOQueue),
+                               "_poll_scheduled": Bool, "_received": Int, "_forwarded": Int, "_queued": Int, "_dropped": Int,
+                               "received_times": Seq(TIME), "forwarded_times": Seq(TIME), "dropped_times": Seq(TIME)},
+    ghost=ENTITY_GHOST, const=["_downstream", "_policy", "_queue"], inv=_entity_inv("rate_limit_poll::"))
+
+
+def is_forward_of(e, src, s, downstream):
+    """e is the forward of request src: stamped with the time of the triggering event, addressed downstream"""
+    return (ns(e.time) == ns(s.event.time)) & same(e.target, downstream) & (e.event_type == "forward::" + s.old(src).event_type) \
+        & Not(e._cancelled)
+
+
+def is_poll(e, s, prefix):
+    return same(e.target, s.self) & (e.event_type == prefix + s.self.name) & (ns(e.time) >= ns(s.event.time)) & e.daemon
+
+
+def _request_post(prefix):
+    def post(s):
+        o, old = s.self, s.old(s.self)
+        d_fwd = o._forwarded - old._forwarded
+        d_q = slen(o._queue._queue) - slen(s.old(s.self._queue)._queue)
+        d_drop = o._dropped - old._dropped
+        return (o._received == old._received + 1) & (d_fwd + d_q + d_drop == 1) & (d_fwd >= 0) & (d_q >= 0) & (d_drop >= 0)
+    return post
+
+
+def _request_result(prefix):
+    def post(s):
+        o, old = s.self, s.old(s.self)
+        r = s.result
+        fwd = o._forwarded - old._forwarded
+        if len(r) == 0:
+            # dropped, or queued behind an already outstanding poll
+            return fwd == 0
+        if len(r) != 1:
+            return False
+        e = r[0]
+        return ite_b(fwd == 1, is_forward_of(e, s.event, s, o._downstream),
+                     is_poll(e, s, prefix) & (slen(o._queue._queue) == slen(s.old(s.self._queue)._queue) + 1))
+    return post
+
+
+def ite_b(c, a, b):
+    return implies(c, a) & implies(Not(c), b)
+
+
+def _poll_post(s):
+    o, old = s.self, s.old(s.self)
+    return (o._received == old._received) & (o._dropped == old._dropped) \
+        & (o._forwarded - old._forwarded == slen(s.old(s.self._queue)._queue) - slen(o._queue._queue)) \
+        & (o._forwarded - old._forwarded >= 0) & (o._forwarded - old._forwarded <= 1)
+
+
+def _poll_result(prefix):
+    def post(s):
+        o, old = s.self, s.old(s.self)
+        r = s.result
+        fwd = o._forwarded - old._forwarded
+        n_old = slen(s.old(s.self._queue)._queue)
+        if len(r) == 0:
+            return (fwd == 0) & (slen(o._queue._queue) == 0)
+        if len(r) == 1:
+            e = r[0]
+            # either the last buffered request went out, or nothing could go and the poll is re-armed
+            return ite_b(fwd == 1, ns(e.time) == ns(s.event.time), is_poll(e, s, prefix))
+        if len(r) == 2:
+            return (fwd == 1) & (ns(r[0].time) == ns(s.event.time)) & same(r[0].target, o._downstream) & is_poll(r[1], s, prefix)
+        return False
+    return post
+
+
+def _oldest_first(s):
+    """a poll forwards the OLDEST buffered request"""
+    o, old = s.self, s.old(s.self)
+    oq = s.old(s.self._queue)._queue.term
+    return implies(o._forwarded == old._forwarded + 1, mk_bool(z3.And(
+        z3.Length(oq) >= 1, o.g_forwarded.term == z3.Concat(old.g_forwarded.term, z3.Unit(oq[0])))))
+
+
+def entity_contracts(K, request, prefix, extra_uses=()):
+    uses = POLICY_IFACE + list(extra_uses)
+    focus = lambda s: [s.self._queue]        # noqa: E731
+    fn(K, request, args={"event": EV}, uses=uses, focus=focus, ensures=[
+        ("forwarded-queued-or-dropped-exactly-once", _request_post(prefix)),
+        ("emits-the-forward-or-one-poll", _request_result(prefix)),
+        ("accepted-unless-dropped", lambda s: slen(s.self.g_accepted) == slen(s.old(s.self).g_accepted)
+            + ite(s.self._dropped == s.old(s.self)._dropped, 1, 0)),
+    ])
+    fn(K, "_handle_poll", args={"event": EV}, uses=uses, focus=focus,
+       requires=[("the-delivered-poll-was-scheduled-by-this-entity", lambda s: s.self.g_polls >= 1)], ensures=[
+        ("forwards-at-most-one-buffered-request", _poll_post),
+        ("forwards-the-oldest-buffered-request", _oldest_first),
+        ("emits-forward-and-or-one-poll", _poll_result(prefix)),
+        ("no-new-arrivals", lambda s: unchanged(s, s.self, "g_accepted")),
+    ])
+    fn(K, "_ensure_poll_scheduled", args={"now": TIME}, uses=uses, focus=focus, inv=False,
+       requires=[lambda s: s.self.g_polls == ite(s.self._poll_scheduled, 1, 0)], ensures=[
+        ("at-most-one-poll-outstanding", lambda s: (s.self.g_polls == 1) & s.self._poll_scheduled),
+        ("schedules-only-when-none-outstanding", lambda s: len(s.result) == (0 if _truthy(s.old(s.self)._poll_scheduled) else 1)),
+        ("poll-not-in-the-past", lambda s: True if len(s.result) == 0 else
+            (ns(s.result[0].time) >= ns(s.now)) & same(s.result[0].target, s.self) & (s.result[0].event_type == prefix + s.self.name)),
+    ])
+    fn(K, "handle_event", args={"event": EV}, uses=uses, focus=focus,
+       requires=[("a-delivered-poll-was-scheduled-by-this-entity", lambda s: implies(
+           s.event.event_type == prefix + s.self.name, s.self.g_polls >= 1))], ensures=[
+        ("poll-or-request", lambda s: ite_b(s.event.event_type == prefix + s.self.name,
+                                            _poll_post(s), _request_post(prefix)(s))),
+    ])
+
+
+def _truthy(b):
+    """fork on a symbolic bool (used where the clause shape depends on it)"""
+    return bool(b)
+
+
+entity_contracts(RateLimitedEntity, "_handle_request", "rate_limit_poll::")
+
+# ---- null limiter: forwards every request exactly once, unchanged
+cls(NullRateLimiter, fields={"_downstream": Ref(Entity)}, const=["_downstream"])
+fn(NullRateLimiter, "handle_event", args={"event": EV}, ensures=[
+    ("forwards-exactly-once-unchanged", lambda s: (len(s.result) == 1) and (
+        (ns(s.result[0].time) == ns(s.event.time)) & same(s.result[0].target, s.self._downstream)
+        & (s.result[0].event_type == s.event.event_type) & Not(s.result[0]._cancelled))),
+])
+
+# ---- inductor (EWMA smoothing): same buffer / poll structure, the admission test is _can_forward
+cls(Inductor, fields={"_downstream": Ref(Entity), "_time_constant": Real, "_queue": Ref(FIFOQueue), "_poll_scheduled": Bool,
+                      "_smoothed_interval": Opt(Real), "_last_arrival_time": Opt(TIME), "_last_output_time": Opt(TIME),
+                      "_received": Int, "_forwarded": Int, "_queued": Int, "_dropped": Int,
+                      "received_times": Seq(TIME), "forwarded_times": Seq(TIME), "dropped_times": Seq(TIME),
+                      "rate_history": Seq(Tuple(TIME, Real))},
+    ghost=ENTITY_GHOST, const=["_downstream", "_queue", "_time_constant"],
+    inv=_entity_inv("inductor_poll::") + [
+        ("time-constant-positive", lambda o: o._time_constant > 0),
+        ("smoothed-interval-nonnegative", lambda o: True if o._smoothed_interval is None else o._smoothed_interval >= 0)])
+
+fn(Inductor, "_can_forward", args={"now": TIME}, ensures=[
+    ("forwards-only-when-one-smoothed-interval-has-passed-since-the-last-output", lambda s: iff(s.result, ind_admits(s.self, ns(s.now)))),
+    ("pure", lambda s: unchanged(s, s.self)),
+])
+
+
+def ind_admits(o, t_ns):
+    lo, sm = o._last_output_time, o._smoothed_interval
+    if lo is None or sm is None:
+        return True
+    return (sm <= 0) | (secs(t_ns - ns(lo)) >= sm)
+
+
+fn(Inductor, "_update_rate_estimate", args={"now": TIME}, inv=False,
+   requires=[lambda s: s.self._time_constant > 0,
+             lambda s: True if s.self._smoothed_interval is None else s.self._smoothed_interval >= 0], ensures=[
+    ("smoothed-interval-stays-nonnegative", lambda s: True if s.self._smoothed_interval is None else s.self._smoothed_interval >= 0),
+    ("estimate-is-between-the-old-estimate-and-the-new-gap", lambda s: _ewma_between(s)),
+    ("only-the-estimate-changes", lambda s: unchanged(s, s.self, "_received", "_forwarded", "_queued", "_dropped",
+                                                       "_last_output_time", "_last_arrival_time", "_poll_scheduled")),
+])
+
+
+def _ewma_between(s):
+    old, new = s.old(s.self)._smoothed_interval, s.self._smoothed_interval
+    la = s.old(s.self)._last_arrival_time
+    if la is None or old is None or new is None:
+        return True
+    dt = secs(ns(s.now) - ns(la))
+    return implies(dt >= 0, (new >= rmin(old, dt)) & (new <= rmax(old, dt)))
+
+
+entity_contracts(Inductor, "_handle_arrival", "inductor_poll::")
